@@ -173,11 +173,13 @@ def eval_stmt(s, env):
             x = jnp.clip(x, kw["clip"][0], kw["clip"][1])
         return x.astype(mid).astype(a[0].dtype)
     if op == "constf":
-        return jnp.full(tuple(kw["shape"]), kw["v"], jnp.float32)
+        # default float dtype (float32, or float64 under x64): explicit float32 constants in double-precision exports are C09's subject
+        return jnp.full(tuple(kw["shape"]), kw["v"], jnp.asarray(0.0).dtype)
     if op == "consti":
         return jnp.full(tuple(kw["shape"]), kw["v"], jnp.int32)
     if op == "const_arr":
-        return jnp.asarray(np.asarray(kw["v"], dtype=NP_DT[kw["dt"]]).reshape(kw["shape"]))
+        npdt = NP_DT[kw["dt"]] if kw["dt"] != F else np.dtype(jnp.asarray(0.0).dtype)
+        return jnp.asarray(np.asarray(kw["v"], dtype=npdt).reshape(kw["shape"]))
     if op == "red":
         fn = (t["RED_F"] if kw["k"] == F else t["RED_I"] if kw["k"] == I else t["RED_B"])[kw["f"]]
         return fn(a[0], axis=kw["axis"], keepdims=kw["keepdims"])
